@@ -158,6 +158,24 @@ class KeepFiles:
         return p
 
 
+BINOPS = [b'+', b'-', b'*', b'/', b'%', b'^', b'..', b'<', b'<=', b'>', b'>=', b'==', b'~=', b'!=', b'and', b'or', b'&', b'|', b'^^', b'<<', b'>>', b'>>>', b'<<>', b'>><', b'\\']
+UNOPS = [b'-', b'not', b'#', b'~', b'@', b'%', b'$']
+
+
+def operator_adjacency_cases():
+    """every (binary operator, unary operator) pair written with nothing in between, with one blank, and across a line end:
+    `a/-b`, `a- -b`, `a~=~b`, `a..#b`, ... Pairs that lex to something else than the two operators are simply other
+    programs (or none: load error, out of domain); the acceptor judges input and output by the reference lexer anyway."""
+    out = []
+    for b in BINOPS:
+        for u in UNOPS:
+            for gap in (b'', b' ', b'\n'):
+                bb = (b' ' + b + b' ') if b.isalpha() else b
+                uu = (u + b' ') if u.isalpha() else u
+                out.append(('adj:%s%s%s' % (b.decode(), gap.decode().replace('\n', '<nl>'), u.decode()), b'x=a' + bb + gap + uu + b'b y=2\nz=3\n', []))
+    return out
+
+
 def program_cases(ctx, rnd, sets, layouts):
     """[(name, src, scopes)] from GenProg behaviour sets rendered in layouts."""
     out = []
@@ -172,7 +190,7 @@ def program_cases(ctx, rnd, sets, layouts):
                 continue
             out.append(('%s#%d/%s' % (label, k, lay), src, info['scopes']))
             if any(x['t'] in ('unop', 'binop') for x in b['toks']) and k % 2 == 0:
-                rs = ('minus', 'dots', 'tilde')[(k // 2) % 3]
+                rs = ('minus', 'dots', 'tilde', 'slash')[(k // 2) % 4]
                 info2 = {}
                 lay2 = 'spaced' if lay == 'tight' else lay
                 src2 = progs.render(b, lay2, random.Random(ctx.seed * 1000003 + k), info=info2, respell=rs)
